@@ -332,6 +332,53 @@ def roots(v, acc=None):
     return acc
 
 
+def restrict(v, cond):
+    """The value `v` on the paths where `cond` holds: every case split inside `v` that has an alternative guarded by
+    exactly `cond` is replaced by that alternative (correlated splits created by binding a pattern against one
+    case-split scrutinee share their guards)."""
+    if isinstance(v, PhiV):
+        for c, x in v.alts:
+            if c == cond:
+                return restrict(x, cond)
+        return PhiV([(c, restrict(x, cond)) for c, x in v.alts])
+    if isinstance(v, Via):
+        return Via(v.name, restrict(v.inner, cond), v.callee)
+    if isinstance(v, Sel):
+        return Sel(restrict(v.base, cond), v.sel)
+    if isinstance(v, TupleV):
+        return TupleV([restrict(x, cond) for x in v.items])
+    if isinstance(v, StructV):
+        return StructV(v.adt, v.variant, {k: restrict(x, cond) for k, x in v.fields.items()}, v.base, v.node)
+    if isinstance(v, CallV):
+        return CallV(v.callee, [restrict(a, cond) for a in v.args], v.node, getattr(v, "inst", None))
+    return v
+
+
+def split_guards(v, acc=None):
+    """guards of the case splits inside v (in order of first appearance)"""
+    if acc is None:
+        acc = []
+    if isinstance(v, PhiV):
+        for c, x in v.alts:
+            if c not in acc:
+                acc.append(c)
+            split_guards(x, acc)
+    elif isinstance(v, Via):
+        split_guards(v.inner, acc)
+    elif isinstance(v, Sel):
+        split_guards(v.base, acc)
+    elif isinstance(v, (TupleV, ArrayV)):
+        for x in v.items:
+            split_guards(x, acc)
+    elif isinstance(v, StructV):
+        for x in v.fields.values():
+            split_guards(x, acc)
+    elif isinstance(v, CallV):
+        for a in v.args:
+            split_guards(a, acc)
+    return acc
+
+
 def _item_roots(items, acc):
     for it in items:
         if it.get("fn"):
@@ -995,6 +1042,22 @@ class Interp:
         self.tries.append((v, n, self.cur_fn(), self.cur_cond()))
         return Via("?", self._unwrap_ok(v))
 
+    def _try_success(self, v, n):
+        """the condition under which `v?` continues"""
+        v0 = core(v)
+        if isinstance(v0, StructV) and v0.variant in ("Ok", "Some"):
+            return True
+        if isinstance(v0, StructV) and v0.variant in ("Err", "None"):
+            return False
+        if isinstance(v0, PhiV):
+            return Or(*[And(c, self._try_success(x, n)) for c, x in v0.alts])
+        if isinstance(v0, CallV) and v0.callee == "std::result::Result::ok" and len(v0.args) == 1:
+            return atom("variant", core(v0.args[0]).r(), "Ok")
+        ty = ((n or {}).get("e") or {}).get("ty", "")
+        if ty.startswith("std::option::Option"):
+            return atom("some", v0.r())
+        return atom("variant", v0.r(), "Ok")
+
     def _unwrap_ok(self, v):
         """`Ok(x)?` / `Some(x)?` is x; a join keeps only its success alternatives (the others leave the function)."""
         v0 = core(v)
@@ -1241,6 +1304,40 @@ class Interp:
             return Via(last, a0, inst or callee)
         if callee.endswith("Tag::context") and len(args) == 1:
             return TagV("ctx", args[0])
+        # `find_map` over a literal table: unroll it (first element for which the closure yields Some)
+        if last == "find_map" and len(args) == 2 and isinstance(core(args[1]), ClosureV) and isinstance(core(args[0]), ArrayV) and 0 < len(core(args[0]).items) <= 16:
+            cl = core(args[1])
+            alts = []
+            earlier = []
+            none = StructV("std::option::Option", "None", {})
+            for it in core(args[0]).items:
+                t0 = len(self.tries)
+                pre = And(*[Not(e) for e in earlier])
+                self.ctx.append(("cond", pre))
+                try:
+                    r = self.call_closure(cl, [it])
+                finally:
+                    self.ctx.pop()
+                succ = And(*[self._try_success(tv, tn) for tv, tn, tf, tc in self.tries[t0:]])
+                r0 = core(r)
+                if isinstance(r0, PhiV):
+                    somes = [(c, x) for c, x in r0.alts if isinstance(core(x), StructV) and core(x).variant == "Some"]
+                    rest = [(c, x) for c, x in r0.alts if not (isinstance(core(x), StructV) and core(x).variant in ("Some", "None"))]
+                    sc = Or(*[c for c, x in somes], *[And(c, atom("some", core(x).r())) for c, x in rest])
+                    payload = somes[0][1] if len(somes) == 1 and not rest else PhiV(somes + rest)
+                elif isinstance(r0, StructV) and r0.variant == "Some":
+                    sc, payload = True, r0
+                elif isinstance(r0, StructV) and r0.variant == "None":
+                    sc, payload = False, none
+                else:
+                    sc, payload = atom("some", r0.r()), StructV("std::option::Option", "Some", {"0": Sel(r, "?")})
+                ok_i = And(succ, sc)
+                ci = And(pre, ok_i)
+                if ci is not False:
+                    alts.append((ci, payload))
+                earlier.append(ok_i)
+            alts.append((And(*[Not(e) for e in earlier]), none))
+            return PhiV(alts)
         # closures handed to foreign adaptors (map, fold, filter_map, for_each, map_err, ...):
         # apply them once to symbolic arguments so that their callees and places are visible
         _fnitem = self._is_fnitem
